@@ -1,9 +1,10 @@
 package pki
 
-// Validation of the generator against the real library: genuine objects must be
-// accepted, forged ones rejected. Where the library disagrees with an object this
-// package is confident about, the case is listed in knownDeviations (and
-// reported, not bent around).
+// Validation of the generator and of the facts against the real library. All
+// recipes live in scenarios.go; this file runs them through
+// passiveauth.PassiveAuth / cms.CreateCertPoolFromSignedData and through
+// ComputeFacts. Where the library contradicts a scenario's class the scenario
+// must name the known deviation, otherwise the test fails.
 
 import (
 	"bytes"
@@ -11,7 +12,6 @@ import (
 	"io"
 	"log/slog"
 	"os"
-	"regexp"
 	"sort"
 	"strings"
 	"sync"
@@ -28,42 +28,14 @@ func TestMain(m *testing.M) {
 	os.Exit(m.Run())
 }
 
-// knownDeviations: pattern of deviation ids -> what the library does differently
-// from the standards. A deviation observed in a test that matches no pattern
-// fails the test; a known one is logged (see the package's final report).
-var knownDeviations = []struct{ pattern, what string }{
-	{`^reject-genuine/rsa-pss-\d+-sha1$`, "RFC 4055 3.1: RSASSA-PSS-params with the DER encoding of SHA-1 (hashAlgorithm/maskGenAlgorithm omitted as DEFAULT) is not parsed; certificates signed with PSS/SHA-1 in DER form are rejected"},
-	{`^reject-probe/pss-sha1-der-default-params`, "same root cause"},
-	{`^reject-variant/(indefinite|definite)-chunked-econtent/`, "X.690 8.7: eContent as constructed OCTET STRING (BER) is rejected"},
-	{`^reject-variant/wrap77-indefinite/`, "EF.SOD whose 0x77 wrapper itself uses the indefinite-length form is rejected although the inner ContentInfo may use it"},
-	{`^reject-cardsecurity-indefinite/`, "EF.CardSecurity in BER indefinite-length form is rejected (EF.SOD in the same form is accepted)"},
-	{`^panic/brainpoolP192r1-r-between-curve-orders$`, "ECDSA curve fallback passes a brainpoolP192r1 point to generic P-192 arithmetic: panic 'attempted operation on invalid point' on attacker-controlled input"},
-	{`^accept-probe/ds-issuer-name-differs-from-csca-subject`, "RFC 5280 6.1.3 (a)(4): issuer name of the DS certificate is not compared with the subject name of the CSCA certificate (chain built on AKI/SKI + signature only)"},
-	{`^accept-probe/sod-signed-by-master-list-signer$`, "a certificate with critical extendedKeyUsage id-icao-cscaMasterListSigningKey is accepted as document signer"},
-}
+var signingTime = ScenarioSigningTime
 
 var (
 	devMu   sync.Mutex
-	devSeen = map[string]string{}
+	devSeen = map[string][]string{} // known deviation -> scenarios where it was observed
 )
 
-func deviation(t *testing.T, id, format string, a ...any) {
-	t.Helper()
-	msg := fmt.Sprintf(format, a...)
-	devMu.Lock()
-	devSeen[id] = msg
-	devMu.Unlock()
-	for _, k := range knownDeviations {
-		if regexp.MustCompile(k.pattern).MatchString(id) {
-			t.Logf("GMRTD-DEVIATION[%s] (known: %s): %s", id, k.what, msg)
-			return
-		}
-	}
-	t.Errorf("GMRTD-DEVIATION[%s] (NEW): %s", id, msg)
-}
-
-var signingTime = time.Date(2024, 6, 1, 12, 0, 0, 0, time.UTC)
-
+// world is the genuine CSCA / DS / data groups of a scenario context.
 type world struct {
 	csca *Authority
 	ds   *Signer
@@ -72,27 +44,11 @@ type world struct {
 
 func newWorld(t *testing.T, seed int64, ks KeySpec) *world {
 	t.Helper()
-	rnd := detRand(seed)
-	csca, err := NewCA(CertSpec{Rand: rnd, Subject: DN("NL", "State of the Netherlands", "CSCA NL"), KeySpec: ks})
+	c, err := newScen(seed, ks)
 	if err != nil {
 		t.Fatal(err)
 	}
-	ds, err := csca.IssueDS(CertSpec{Subject: DN("NL", "State of the Netherlands", "DS 1"), KeySlot: 1})
-	if err != nil {
-		t.Fatal(err)
-	}
-	dg2 := make([]byte, 300)
-	rnd.Read(dg2)
-	dg2[0] = 0x75
-	return &world{csca: csca, ds: ds, dgs: map[int][]byte{1: MakeDG1(MakeTD3MRZ("NLD", "L898902C3")), 2: dg2}}
-}
-
-func cloneDGs(m map[int][]byte) map[int][]byte {
-	out := map[int][]byte{}
-	for k, v := range m {
-		out[k] = append([]byte{}, v...)
-	}
-	return out
+	return &world{csca: c.csca, ds: c.ds, dgs: c.dgs}
 }
 
 // runPA runs the real passive authentication.
@@ -141,6 +97,92 @@ func runPA(sod []byte, dgs map[int][]byte, cardSec []byte, trust [][]byte) (res 
 	return res, err
 }
 
+// runLibrary gives the library's verdict on a scenario (nil error = accepted).
+func runLibrary(sc Scenario) (err error) {
+	if sc.MasterList != nil {
+		defer func() {
+			if r := recover(); r != nil {
+				err = fmt.Errorf("PANIC: %v", r)
+			}
+		}()
+		pool, err := cms.CreateCertPoolFromSignedData(sc.MasterList, bytes.Join(sc.Trust, nil))
+		if err != nil {
+			return err
+		}
+		var got, want []string
+		for _, c := range pool.All() {
+			got = append(got, string(c.Raw))
+		}
+		for _, c := range sc.MLExpectCerts {
+			want = append(want, string(c))
+		}
+		sort.Strings(got)
+		sort.Strings(want)
+		if strings.Join(got, "|") != strings.Join(want, "|") {
+			return fmt.Errorf("TEST: pool does not hold exactly the master list certificates (%d vs %d)", len(got), len(want))
+		}
+		return nil
+	}
+	res, err := runPA(sc.SOD, sc.DGs, sc.CardSec, sc.Trust)
+	if err == nil {
+		if len(res.Sod.CertChain) < 2 {
+			return fmt.Errorf("TEST: accepted with a chain of %d certificates", len(res.Sod.CertChain))
+		}
+		if sc.CardSec != nil && (res.CardSec == nil || len(res.CardSec.CertChain) < 2) {
+			return fmt.Errorf("TEST: CardSecurity chain missing")
+		}
+	}
+	return err
+}
+
+func short(err error) string {
+	if err == nil {
+		return "accept"
+	}
+	s := "reject: " + err.Error()
+	if len(s) > 260 {
+		s = s[:260] + "..."
+	}
+	return s
+}
+
+// judge compares the library's verdict with the scenario's class.
+func judge(t *testing.T, sc Scenario, err error) {
+	t.Helper()
+	note := func() {
+		devMu.Lock()
+		devSeen[sc.KnownDeviation] = append(devSeen[sc.KnownDeviation], sc.KeySpec.String()+":"+sc.Name)
+		devMu.Unlock()
+		t.Logf("GMRTD-DEVIATION[%s] %s %s: %s", sc.KnownDeviation, sc.KeySpec, sc.Name, short(err))
+	}
+	bad := func(what string) {
+		if sc.KnownDeviation != "" {
+			if _, ok := KnownDeviations[sc.KnownDeviation]; !ok {
+				t.Errorf("%s: KnownDeviation %q is not described", sc.Name, sc.KnownDeviation)
+			}
+			note()
+			return
+		}
+		t.Errorf("GMRTD-DEVIATION (NEW) %s %s: %s: %s", sc.KeySpec, sc.Name, what, short(err))
+	}
+	t.Logf("VERDICT %-8s %-70s library=%s", sc.Class, sc.Name, short(err))
+	switch {
+	case err != nil && strings.HasPrefix(err.Error(), "TEST:"):
+		t.Errorf("%s: %v", sc.Name, err)
+	case err != nil && strings.Contains(err.Error(), "PANIC"):
+		bad("library panicked")
+	case sc.Class == "genuine" && err != nil:
+		bad("correctly issued object rejected")
+	case sc.Class == "forgery" && err == nil:
+		bad("forged object accepted")
+	case sc.Class == "probe":
+	default:
+		if sc.KnownDeviation != "" {
+			t.Logf("known deviation %s NOT observed for %s %s", sc.KnownDeviation, sc.KeySpec, sc.Name)
+		}
+	}
+}
+
 func ints(v ...int) []int { return v }
 
 func eqInts(a, b []int) bool {
@@ -155,37 +197,499 @@ func eqInts(a, b []int) bool {
 	return true
 }
 
-// checkGenuineFacts asserts what ComputeFacts must say about a genuine single-signer SOD.
-func checkGenuineFacts(t *testing.T, name string, f *Facts, anchors []AnchorFacts, dgs map[int][]byte) {
+func subset(a, b []int) bool {
+	for _, x := range a {
+		found := false
+		for _, y := range b {
+			if x == y {
+				found = true
+			}
+		}
+		if !found {
+			return false
+		}
+	}
+	return true
+}
+
+// checkGenuineFacts asserts what ComputeFacts must say about any correctly issued document.
+func checkGenuineFacts(t *testing.T, sc Scenario, f *Facts, anchors []AnchorFacts) {
 	t.Helper()
-	if f.InternalPanic != "" {
-		t.Fatalf("%s: internal panic %s", name, f.InternalPanic)
+	if !f.Parseable || !f.LDSParseable || len(f.Signers) < 1 || len(f.Certs) < 1 {
+		t.Fatalf("%s: structure facts wrong: %+v", sc.Name, f)
 	}
-	if !f.Parseable || !f.LDSParseable || len(f.Signers) != 1 || len(f.Certs) < 1 {
-		t.Fatalf("%s: structure facts wrong: %+v", name, f)
-	}
-	for n := range dgs {
+	for n := range sc.DGs {
 		if !f.DGHashOK[n] {
-			t.Errorf("%s: DGHashOK[%d] false", name, n)
+			t.Errorf("%s: DGHashOK[%d] false", sc.Name, n)
 		}
 	}
-	s := f.Signers[0]
-	if !s.Parseable || !s.SignedAttrsPresent || !s.ContentTypeOK || !s.MessageDigestOK || !s.SignedAttrsDER {
-		t.Errorf("%s: signer facts wrong: %+v", name, s)
-	}
-	if len(s.MatchedEmbeddedCerts) != 1 || !eqInts(s.SigVerifiesUnder, s.MatchedEmbeddedCerts) || !eqInts(s.SigVerifiesUnderDigestAlg, s.MatchedEmbeddedCerts) {
-		t.Errorf("%s: SID/signature facts wrong: matched %v verifies %v / %v", name, s.MatchedEmbeddedCerts, s.SigVerifiesUnder, s.SigVerifiesUnderDigestAlg)
-		return
-	}
-	c := f.Certs[s.MatchedEmbeddedCerts[0]]
-	if !c.Parseable || c.Country != "NL" || !c.HasKeyUsage || !c.KUDigitalSignature || c.IsCA || c.UnknownCriticalExt || !c.KeyValid {
-		t.Errorf("%s: DS facts wrong: %+v", name, c)
-	}
-	if len(anchors) > 0 {
-		if len(c.ChainsTo) == 0 || !eqInts(c.ChainsTo, c.AKIMatches) {
-			t.Errorf("%s: DS chain facts wrong: ChainsTo %v AKIMatches %v", name, c.ChainsTo, c.AKIMatches)
+	for k, s := range f.Signers {
+		if !s.Parseable || !s.SignedAttrsPresent || !s.ContentTypeOK || !s.MessageDigestOK || !s.SignedAttrsDER {
+			t.Errorf("%s: signer %d facts wrong: %+v", sc.Name, k, s)
+		}
+		if len(s.MatchedEmbeddedCerts) != 1 || !eqInts(s.SigVerifiesUnder, s.MatchedEmbeddedCerts) || !eqInts(s.SigVerifiesUnderDigestAlg, s.MatchedEmbeddedCerts) {
+			t.Errorf("%s: signer %d SID/signature facts wrong: matched %v verifies %v / %v", sc.Name, k, s.MatchedEmbeddedCerts, s.SigVerifiesUnder, s.SigVerifiesUnderDigestAlg)
+			continue
+		}
+		c := f.Certs[s.MatchedEmbeddedCerts[0]]
+		if !c.Parseable || c.Country != "NL" || !c.HasKeyUsage || !c.KUDigitalSignature || c.IsCA || c.UnknownCriticalExt || !c.KeyValid {
+			t.Errorf("%s: DS facts wrong: %+v", sc.Name, c)
+		}
+		if len(c.ChainsTo) == 0 || !subset(c.ChainsTo, c.AKIMatches) || !subset(c.ChainsTo, c.IssuerMatches) {
+			t.Errorf("%s: DS chain facts wrong: ChainsTo %v AKIMatches %v IssuerMatches %v", sc.Name, c.ChainsTo, c.AKIMatches, c.IssuerMatches)
+		}
+		for _, j := range c.ChainsTo {
+			a := anchors[j]
+			if !a.Parseable || !a.IsCA || !a.KUKeyCertSign || a.UnknownCriticalExt || a.Country != "NL" {
+				t.Errorf("%s: anchor %d facts wrong: %+v", sc.Name, j, a)
+			}
+			if s.SigningTime != nil && (s.SigningTime.Before(a.NotBefore) || s.SigningTime.After(a.NotAfter) || s.SigningTime.Before(c.NotBefore) || s.SigningTime.After(c.NotAfter)) {
+				t.Errorf("%s: signing time outside validity", sc.Name)
+			}
 		}
 	}
+}
+
+type factCheck func(t *testing.T, sc Scenario, f *Facts, a []AnchorFacts)
+
+// factChecks: the fact that must hold (or flip) per scenario, by name.
+var factChecks = map[string]factCheck{
+	"genuine/base": func(t *testing.T, sc Scenario, f *Facts, a []AnchorFacts) {
+		if f.SigningTime == nil || !f.SigningTime.Equal(signingTime) {
+			t.Errorf("SigningTime fact %v", f.SigningTime)
+		}
+		if !a[0].SelfSigned || !eqInts(a[0].ChainsTo, ints(0)) {
+			t.Errorf("anchor facts wrong: %+v", a[0])
+		}
+	},
+	"forgery/csca-absent-same-name-other-key": func(t *testing.T, sc Scenario, f *Facts, a []AnchorFacts) {
+		if len(f.Certs[0].ChainsTo) != 0 || !eqInts(f.Certs[0].IssuerMatches, ints(0)) {
+			t.Errorf("chain facts: %+v", f.Certs[0])
+		}
+	},
+	"forgery/dg1-altered": func(t *testing.T, sc Scenario, f *Facts, a []AnchorFacts) {
+		if f.DGHashOK[1] || !f.DGHashOK[2] {
+			t.Errorf("DGHashOK %v", f.DGHashOK)
+		}
+	},
+	"forgery/dg2-altered": func(t *testing.T, sc Scenario, f *Facts, a []AnchorFacts) {
+		if f.DGHashOK[2] || !f.DGHashOK[1] {
+			t.Errorf("DGHashOK %v", f.DGHashOK)
+		}
+	},
+	"forgery/signature-bit-flipped": func(t *testing.T, sc Scenario, f *Facts, a []AnchorFacts) {
+		if len(f.Signers[0].SigVerifiesUnder) != 0 || !f.MessageDigestOK {
+			t.Errorf("facts: %+v", f.Signers[0])
+		}
+	},
+	"forgery/signed-attribute-byte-flipped": func(t *testing.T, sc Scenario, f *Facts, a []AnchorFacts) {
+		if len(f.Signers[0].SigVerifiesUnder) != 0 {
+			t.Errorf("facts: %+v", f.Signers[0])
+		}
+	},
+	"genuine/variant/indefinite": func(t *testing.T, sc Scenario, f *Facts, a []AnchorFacts) {
+		if !f.Indefinite {
+			t.Error("Indefinite fact false")
+		}
+	},
+	"genuine/variant/sid-ski": func(t *testing.T, sc Scenario, f *Facts, a []AnchorFacts) {
+		if f.Signers[0].SIDForm != "ski" || f.Signers[0].Version != 3 {
+			t.Errorf("SID facts: %+v", f.Signers[0])
+		}
+	},
+	"genuine/variant/lds-v1": func(t *testing.T, sc Scenario, f *Facts, a []AnchorFacts) {
+		if f.LDSVersion != 1 || f.LDSVersionInfo == nil || f.LDSVersionInfo[0] != "0108" {
+			t.Errorf("LDS v1 facts: %v %v", f.LDSVersion, f.LDSVersionInfo)
+		}
+	},
+	"genuine/variant/no-signing-time": func(t *testing.T, sc Scenario, f *Facts, a []AnchorFacts) {
+		if f.SigningTime != nil || f.Signers[0].SigningTimePresent {
+			t.Error("SigningTime fact should be absent")
+		}
+	},
+	"genuine/variant/extra-cert-before": func(t *testing.T, sc Scenario, f *Facts, a []AnchorFacts) {
+		if !eqInts(f.Signers[0].MatchedEmbeddedCerts, ints(1)) {
+			t.Errorf("matched %v", f.Signers[0].MatchedEmbeddedCerts)
+		}
+	},
+	"genuine/variant/lds-hash-differs-from-signer-digest": func(t *testing.T, sc Scenario, f *Facts, a []AnchorFacts) {
+		if f.DigestAlg != secondHash(sc.KeySpec.Hash) || f.Signers[0].DigestAlg != sc.KeySpec.Hash {
+			t.Errorf("digest facts %s %s", f.DigestAlg, f.Signers[0].DigestAlg)
+		}
+	},
+	"genuine/variant/validity-generalized-time-2055": func(t *testing.T, sc Scenario, f *Facts, a []AnchorFacts) {
+		if f.Certs[0].NotAfter.Year() != 2055 {
+			t.Errorf("NotAfter %v", f.Certs[0].NotAfter)
+		}
+	},
+	"genuine/variant/csca-path-len-absent": func(t *testing.T, sc Scenario, f *Facts, a []AnchorFacts) {
+		if a[0].PathLen != -1 || !a[0].IsCA {
+			t.Errorf("facts: %+v", a[0])
+		}
+	},
+	"genuine/two-signer-infos": func(t *testing.T, sc Scenario, f *Facts, a []AnchorFacts) {
+		if len(f.Signers) != 2 || !eqInts(f.Signers[1].SigVerifiesUnder, ints(1)) || f.Signers[0].SigningTime == nil || f.Signers[1].SigningTime == nil ||
+			!f.Signers[0].SigningTime.Equal(signingTime) || !f.Signers[1].SigningTime.Equal(signingTime.Add(time.Hour)) {
+			t.Errorf("facts: %+v", f.Signers)
+		}
+	},
+	"forgery/two-signer-infos-second-certificate-not-valid-at-its-own-signing-time": func(t *testing.T, sc Scenario, f *Facts, a []AnchorFacts) {
+		if len(f.Signers) != 2 || !eqInts(f.Signers[0].SigVerifiesUnder, ints(0)) || !eqInts(f.Signers[1].SigVerifiesUnder, ints(1)) || !eqInts(f.Signers[1].MatchedEmbeddedCerts, ints(1)) ||
+			f.Signers[0].SigningTime == nil || f.Signers[1].SigningTime == nil || f.Signers[0].SigningTime.Equal(*f.Signers[1].SigningTime) ||
+			!f.Signers[1].SigningTime.After(f.Certs[1].NotAfter) || f.Signers[0].SigningTime.After(f.Certs[0].NotAfter) || f.Signers[0].SigningTime.After(f.Certs[1].NotAfter) ||
+			!eqInts(f.Certs[1].ChainsTo, ints(0)) {
+			t.Errorf("facts: %+v", f.Signers)
+		}
+	},
+	"forgery/two-signer-infos-first-without-signing-time-second-certificate-not-valid-at-its-signing-time": func(t *testing.T, sc Scenario, f *Facts, a []AnchorFacts) {
+		if len(f.Signers) != 2 || f.Signers[0].SigningTime != nil || f.Signers[0].SigningTimePresent || f.Signers[1].SigningTime == nil ||
+			!f.Signers[1].SigningTime.After(f.Certs[1].NotAfter) || !eqInts(f.Signers[1].SigVerifiesUnder, ints(1)) {
+			t.Errorf("facts: %+v", f.Signers)
+		}
+	},
+	"forgery/two-signer-infos-second-signature-corrupted": func(t *testing.T, sc Scenario, f *Facts, a []AnchorFacts) {
+		if len(f.Signers) != 2 || !eqInts(f.Signers[0].SigVerifiesUnder, ints(0)) || len(f.Signers[1].SigVerifiesUnder) != 0 {
+			t.Errorf("facts: %+v", f.Signers)
+		}
+	},
+	"genuine/cardsecurity": func(t *testing.T, sc Scenario, _ *Facts, _ []AnchorFacts) {
+		f, _ := ComputeFacts(sc.CardSec, nil, sc.Trust)
+		if !f.Parseable || f.EContentType != OIDSecurityObject || f.Wrapped77 || !f.MessageDigestOK || !f.ContentTypeOK ||
+			!eqInts(f.Signers[0].SigVerifiesUnder, ints(0)) || !eqInts(f.Certs[0].ChainsTo, ints(0)) || !bytes.Equal(f.EContent, TestSecurityInfos()) {
+			t.Errorf("CardSecurity facts wrong: %+v", f)
+		}
+	},
+	"forgery/cardsecurity-signed-by-foreign-key": func(t *testing.T, sc Scenario, _ *Facts, _ []AnchorFacts) {
+		f, _ := ComputeFacts(sc.CardSec, nil, sc.Trust)
+		if len(f.Signers[0].SigVerifiesUnder) != 0 || !eqInts(f.Signers[0].MatchedEmbeddedCerts, ints(0)) {
+			t.Errorf("forged CardSecurity facts wrong")
+		}
+	},
+	"genuine/cardsecurity-indefinite": func(t *testing.T, sc Scenario, _ *Facts, _ []AnchorFacts) {
+		f, _ := ComputeFacts(sc.CardSec, nil, sc.Trust)
+		if !f.Parseable || !f.Indefinite || !eqInts(f.Signers[0].SigVerifiesUnder, ints(0)) {
+			t.Errorf("indefinite CardSecurity facts wrong")
+		}
+	},
+	"genuine/master-list": func(t *testing.T, sc Scenario, f *Facts, a []AnchorFacts) {
+		if !f.Parseable || !f.MasterListParseable || len(f.MasterListCerts) != 4 || f.EContentType != OIDCscaMasterList ||
+			!eqInts(f.Signers[0].SigVerifiesUnder, ints(0)) || !eqInts(f.Certs[0].ChainsTo, ints(0)) || !f.MessageDigestOK ||
+			!f.Certs[0].EKUCritical || len(f.Certs[0].EKU) != 1 || f.Certs[0].EKU[0] != OIDCscaMLSigningKey {
+			t.Errorf("master list facts wrong: %+v", f)
+		}
+	},
+	"forgery/master-list-foreign-root": func(t *testing.T, sc Scenario, f *Facts, a []AnchorFacts) {
+		if len(f.Certs[0].ChainsTo) != 0 {
+			t.Errorf("ChainsTo %v", f.Certs[0].ChainsTo)
+		}
+	},
+	"forgery/master-list-signature-bit-flipped": func(t *testing.T, sc Scenario, f *Facts, a []AnchorFacts) {
+		if len(f.Signers[0].SigVerifiesUnder) != 0 {
+			t.Errorf("forged master list facts wrong")
+		}
+	},
+	"probe/master-list-signed-by-plain-ds": func(t *testing.T, sc Scenario, f *Facts, a []AnchorFacts) {
+		if f.Certs[0].HasEKU || !eqInts(f.Signers[0].SigVerifiesUnder, ints(0)) {
+			t.Errorf("facts: %+v", f.Certs[0])
+		}
+	},
+
+	// forgeries
+	"forgery/message-digest-mismatch": func(t *testing.T, sc Scenario, f *Facts, _ []AnchorFacts) {
+		if f.MessageDigestOK || !eqInts(f.Signers[0].SigVerifiesUnder, ints(0)) {
+			t.Errorf("want MessageDigestOK=false with a verifying signature: %+v", f.Signers[0])
+		}
+	},
+	"forgery/econtent-swapped-after-signing": func(t *testing.T, sc Scenario, f *Facts, _ []AnchorFacts) {
+		if f.MessageDigestOK || !f.DGHashOK[2] {
+			t.Errorf("want MessageDigestOK=false, DGHashOK[2]=true: %v %v", f.MessageDigestOK, f.DGHashOK)
+		}
+	},
+	"forgery/content-type-mismatch": func(t *testing.T, sc Scenario, f *Facts, _ []AnchorFacts) {
+		if f.ContentTypeOK || !f.MessageDigestOK {
+			t.Errorf("want ContentTypeOK=false")
+		}
+	},
+	"forgery/no-content-type-attr": func(t *testing.T, sc Scenario, f *Facts, _ []AnchorFacts) {
+		if f.ContentTypeOK || f.Signers[0].ContentTypePresent {
+			t.Errorf("want ContentTypePresent=false")
+		}
+	},
+	"forgery/no-message-digest-attr": func(t *testing.T, sc Scenario, f *Facts, _ []AnchorFacts) {
+		if f.MessageDigestOK || f.Signers[0].MessageDigestPresent {
+			t.Errorf("want MessageDigestPresent=false")
+		}
+	},
+	"forgery/signed-by-other-key": func(t *testing.T, sc Scenario, f *Facts, _ []AnchorFacts) {
+		if len(f.Signers[0].SigVerifiesUnder) != 0 || !eqInts(f.Signers[0].MatchedEmbeddedCerts, ints(0)) {
+			t.Errorf("want SigVerifiesUnder empty")
+		}
+	},
+	"forgery/adversary-ds-same-names": func(t *testing.T, sc Scenario, f *Facts, _ []AnchorFacts) {
+		if !eqInts(f.Signers[0].SigVerifiesUnder, ints(0)) || len(f.Certs[0].ChainsTo) != 0 || !eqInts(f.Certs[0].AKIMatches, ints(0)) || !eqInts(f.Certs[0].IssuerMatches, ints(0)) {
+			t.Errorf("want a verifying signature, AKI and issuer name matching the anchor, but ChainsTo empty: %+v", f.Certs[0])
+		}
+	},
+	"forgery/both-ds-embedded-adversary-signs-with-genuine-sid": func(t *testing.T, sc Scenario, f *Facts, _ []AnchorFacts) {
+		if !eqInts(f.Signers[0].SigVerifiesUnder, ints(0)) || !eqInts(f.Signers[0].MatchedEmbeddedCerts, ints(0, 1)) || len(f.Certs[0].ChainsTo) != 0 || !eqInts(f.Certs[1].ChainsTo, ints(0)) {
+			t.Errorf("facts: %+v", f.Signers[0])
+		}
+	},
+	"forgery/adversary-ca-in-store-other-country": func(t *testing.T, sc Scenario, f *Facts, a []AnchorFacts) {
+		if f.Certs[0].Country != "DE" || !eqInts(f.Certs[0].ChainsTo, ints(1)) || a[1].Country != "DE" {
+			t.Errorf("facts: %+v", f.Certs[0])
+		}
+	},
+	"forgery/ds-expired-at-signing-time": func(t *testing.T, sc Scenario, f *Facts, _ []AnchorFacts) {
+		if f.SigningTime == nil || !f.SigningTime.After(f.Certs[0].NotAfter) {
+			t.Errorf("want SigningTime after NotAfter")
+		}
+	},
+	"forgery/ds-not-yet-valid-at-signing-time": func(t *testing.T, sc Scenario, f *Facts, _ []AnchorFacts) {
+		if f.SigningTime == nil || !f.SigningTime.Before(f.Certs[0].NotBefore) {
+			t.Errorf("want SigningTime before NotBefore")
+		}
+	},
+	"forgery/csca-expired-at-signing-time": func(t *testing.T, sc Scenario, f *Facts, a []AnchorFacts) {
+		if !eqInts(f.Certs[0].ChainsTo, ints(0)) || !f.SigningTime.After(a[0].NotAfter) {
+			t.Errorf("want chain to an anchor that expired before the signing time")
+		}
+	},
+	"forgery/ds-validity-utctime-1998-1999": func(t *testing.T, sc Scenario, f *Facts, _ []AnchorFacts) {
+		if f.Certs[0].NotAfter.Year() != 1999 || f.Certs[0].NotBefore.Year() != 1998 {
+			t.Errorf("validity %v %v", f.Certs[0].NotBefore, f.Certs[0].NotAfter)
+		}
+	},
+	"forgery/ds-without-digital-signature": func(t *testing.T, sc Scenario, f *Facts, _ []AnchorFacts) {
+		if !f.Certs[0].HasKeyUsage || f.Certs[0].KUDigitalSignature || !eqInts(f.Certs[0].KeyUsageBits, ints(KUKeyEncipherment)) {
+			t.Errorf("key usage facts: %+v", f.Certs[0])
+		}
+	},
+	"forgery/ds-unknown-critical-extension": func(t *testing.T, sc Scenario, f *Facts, _ []AnchorFacts) {
+		if !f.Certs[0].UnknownCriticalExt {
+			t.Errorf("UnknownCriticalExt should be true")
+		}
+	},
+	"forgery/ca-without-key-cert-sign": func(t *testing.T, sc Scenario, f *Facts, a []AnchorFacts) {
+		if a[0].KUKeyCertSign || !a[0].IsCA || !eqInts(f.Certs[0].ChainsTo, ints(0)) {
+			t.Errorf("anchor facts: %+v", a[0])
+		}
+	},
+	"forgery/ca-false": func(t *testing.T, sc Scenario, f *Facts, a []AnchorFacts) {
+		if a[0].IsCA || !a[0].HasBasicConstraints || !eqInts(f.Certs[0].ChainsTo, ints(0)) {
+			t.Errorf("anchor facts: %+v", a[0])
+		}
+	},
+	"forgery/ca-no-basic-constraints": func(t *testing.T, sc Scenario, f *Facts, a []AnchorFacts) {
+		if a[0].IsCA || a[0].HasBasicConstraints {
+			t.Errorf("anchor facts: %+v", a[0])
+		}
+	},
+	"forgery/ca-unknown-critical-extension": func(t *testing.T, sc Scenario, f *Facts, a []AnchorFacts) {
+		if !a[0].UnknownCriticalExt {
+			t.Errorf("anchor facts: %+v", a[0])
+		}
+	},
+	"forgery/dg-injected-not-in-sod": func(t *testing.T, sc Scenario, f *Facts, _ []AnchorFacts) {
+		if f.DGHashOK[14] || !f.DGHashOK[1] {
+			t.Errorf("DGHashOK: %v", f.DGHashOK)
+		}
+	},
+	"forgery/dg1-country-differs-from-certificates": func(t *testing.T, sc Scenario, f *Facts, _ []AnchorFacts) {
+		if f.Certs[0].Country != "NL" || !f.DGHashOK[1] {
+			t.Errorf("facts: %v", f.Certs[0].Country)
+		}
+	},
+	"forgery/cert-signature-corrupted": func(t *testing.T, sc Scenario, f *Facts, _ []AnchorFacts) {
+		if len(f.Certs[0].ChainsTo) != 0 || !eqInts(f.Signers[0].SigVerifiesUnder, ints(0)) {
+			t.Errorf("facts: %+v", f.Certs[0])
+		}
+	},
+	"forgery/ds-issuer-name-differs-from-csca-subject-aki-matches": func(t *testing.T, sc Scenario, f *Facts, _ []AnchorFacts) {
+		if !eqInts(f.Certs[0].ChainsTo, ints(0)) || len(f.Certs[0].IssuerMatches) != 0 || !eqInts(f.Certs[0].AKIMatches, ints(0)) {
+			t.Errorf("facts: %+v", f.Certs[0])
+		}
+	},
+	"forgery/sod-signed-by-master-list-signer": func(t *testing.T, sc Scenario, f *Facts, _ []AnchorFacts) {
+		if !f.Certs[0].EKUCritical || len(f.Certs[0].EKU) != 1 || f.Certs[0].EKU[0] != OIDCscaMLSigningKey || !eqInts(f.Certs[0].ChainsTo, ints(0)) {
+			t.Errorf("facts: %+v", f.Certs[0])
+		}
+	},
+	"forgery/ecdsa-r-between-curve-orders": func(t *testing.T, sc Scenario, f *Facts, _ []AnchorFacts) {
+		if len(f.Signers[0].SigVerifiesUnder) != 0 {
+			t.Errorf("facts: %+v", f.Signers[0])
+		}
+	},
+
+	// probes
+	"probe/pss-sha1-explicit-default-params":                 sigOK,
+	"probe/pss-sha1-der-default-params-in-certificates-only": sigOK,
+	"probe/pss-declared-salt-length-wrong-signerinfo": func(t *testing.T, sc Scenario, f *Facts, _ []AnchorFacts) {
+		if len(f.Signers[0].SigVerifiesUnder) != 0 || !eqInts(f.Signers[0].SigVerifiesUnderDigestAlg, ints(0)) {
+			t.Errorf("facts: %+v", f.Signers[0])
+		}
+	},
+	"probe/pss-declared-hash-differs-from-digest-algorithm": func(t *testing.T, sc Scenario, f *Facts, _ []AnchorFacts) {
+		if !eqInts(f.Signers[0].SigVerifiesUnder, ints(0)) || len(f.Signers[0].SigVerifiesUnderDigestAlg) != 0 || !f.MessageDigestOK {
+			t.Errorf("facts: %+v", f.Signers[0])
+		}
+	},
+	"probe/pss-key-with-id-RSASSA-PSS-spki": sigOK,
+	"probe/rsa-sigalg-without-null":         sigOK,
+	"probe/ecdsa-oid-hash-differs-from-digest-algorithm": func(t *testing.T, sc Scenario, f *Facts, _ []AnchorFacts) {
+		if len(f.Signers[0].SigVerifiesUnder) != 0 || !eqInts(f.Signers[0].SigVerifiesUnderDigestAlg, ints(0)) {
+			t.Errorf("facts: %+v", f.Signers[0])
+		}
+	},
+	"probe/ec-explicit-params-without-cofactor": func(t *testing.T, sc Scenario, f *Facts, _ []AnchorFacts) {
+		if !f.Certs[0].KeyExplicit || f.Certs[0].KeyCurve != sc.KeySpec.Curve || !eqInts(f.Signers[0].SigVerifiesUnder, ints(0)) || !eqInts(f.Certs[0].ChainsTo, ints(0)) {
+			t.Errorf("facts: %+v", f.Certs[0])
+		}
+	},
+	"probe/ec-compressed-public-key": func(t *testing.T, sc Scenario, f *Facts, _ []AnchorFacts) {
+		if !f.Certs[0].KeyValid || !eqInts(f.Signers[0].SigVerifiesUnder, ints(0)) {
+			t.Errorf("facts: %+v", f.Certs[0])
+		}
+	},
+	"probe/ec-point-on-other-curve-than-declared": func(t *testing.T, sc Scenario, f *Facts, _ []AnchorFacts) {
+		if f.Certs[0].KeyValid || len(f.Signers[0].SigVerifiesUnder) != 0 || !eqInts(f.Certs[0].ChainsTo, ints(0)) {
+			t.Errorf("facts: %+v", f.Certs[0])
+		}
+	},
+	"probe/sid-points-nowhere-single-embedded-cert": func(t *testing.T, sc Scenario, f *Facts, _ []AnchorFacts) {
+		if len(f.Signers[0].MatchedEmbeddedCerts) != 0 || !eqInts(f.Signers[0].SigVerifiesUnder, ints(0)) {
+			t.Errorf("facts: %+v", f.Signers[0])
+		}
+	},
+	"probe/signer-cert-embedded-twice": func(t *testing.T, sc Scenario, f *Facts, _ []AnchorFacts) {
+		if !eqInts(f.Signers[0].MatchedEmbeddedCerts, ints(0, 1)) {
+			t.Errorf("facts: %+v", f.Signers[0])
+		}
+	},
+	"probe/sid-issuer-other-string-type-and-case": func(t *testing.T, sc Scenario, f *Facts, _ []AnchorFacts) {
+		if !eqInts(f.Signers[0].MatchedEmbeddedCerts, ints(0)) {
+			t.Errorf("facts: %+v", f.Signers[0])
+		}
+	},
+	"probe/sid-issuer-rdn-order-permuted": func(t *testing.T, sc Scenario, f *Facts, _ []AnchorFacts) {
+		if len(f.Signers[0].MatchedEmbeddedCerts) != 0 || !eqInts(f.Signers[0].MatchedUnordered, ints(0)) {
+			t.Errorf("facts: %+v", f.Signers[0])
+		}
+	},
+	"probe/no-embedded-certificates": func(t *testing.T, sc Scenario, f *Facts, _ []AnchorFacts) {
+		if len(f.Certs) != 0 || !f.Parseable {
+			t.Errorf("facts: %+v", f)
+		}
+	},
+	"probe/duplicate-signed-attrs-second-copy-differs": func(t *testing.T, sc Scenario, f *Facts, _ []AnchorFacts) {
+		if !f.Signers[0].DuplicateSignedAttrs || !f.MessageDigestOK {
+			t.Errorf("facts: %+v", f.Signers[0])
+		}
+	},
+	"probe/signed-attrs-not-in-der-order": func(t *testing.T, sc Scenario, f *Facts, _ []AnchorFacts) {
+		if f.Signers[0].SignedAttrsDER || !eqInts(f.Signers[0].SigVerifiesUnder, ints(0)) {
+			t.Errorf("facts: %+v", f.Signers[0])
+		}
+	},
+	"probe/no-signed-attrs": func(t *testing.T, sc Scenario, f *Facts, _ []AnchorFacts) {
+		if f.SignedAttrsPresent || !eqInts(f.Signers[0].SigVerifiesUnder, ints(0)) {
+			t.Errorf("facts: %+v", f.Signers[0])
+		}
+	},
+	"probe/trailing-bytes-after-sod": func(t *testing.T, sc Scenario, f *Facts, _ []AnchorFacts) {
+		if f.TrailingBytes != 3 {
+			t.Errorf("TrailingBytes %d", f.TrailingBytes)
+		}
+	},
+	"probe/empty-digest-algorithms-set": sigOK,
+	"probe/duplicate-dg-number-second-entry-wrong": func(t *testing.T, sc Scenario, f *Facts, _ []AnchorFacts) {
+		if !f.DuplicateDGNumbers || !f.DGHashOK[2] {
+			t.Errorf("facts: %v %v", f.DuplicateDGNumbers, f.DGHashOK)
+		}
+	},
+	"probe/duplicate-dg-number-first-entry-wrong": func(t *testing.T, sc Scenario, f *Facts, _ []AnchorFacts) {
+		if !f.DuplicateDGNumbers || f.DGHashOK[2] {
+			t.Errorf("facts: %v %v", f.DuplicateDGNumbers, f.DGHashOK)
+		}
+	},
+	"probe/ds-without-key-usage": func(t *testing.T, sc Scenario, f *Facts, _ []AnchorFacts) {
+		if f.Certs[0].HasKeyUsage {
+			t.Errorf("HasKeyUsage should be false")
+		}
+	},
+	"probe/ds-without-aki": func(t *testing.T, sc Scenario, f *Facts, _ []AnchorFacts) {
+		if f.Certs[0].AKI != nil || !eqInts(f.Certs[0].ChainsTo, ints(0)) || !eqInts(f.Certs[0].IssuerMatches, ints(0)) {
+			t.Errorf("facts: %+v", f.Certs[0])
+		}
+	},
+	"probe/csca-without-ski": func(t *testing.T, sc Scenario, f *Facts, a []AnchorFacts) {
+		if a[0].SKI != nil || !eqInts(f.Certs[0].ChainsTo, ints(0)) || len(f.Certs[0].AKIMatches) != 0 {
+			t.Errorf("facts: %+v", f.Certs[0])
+		}
+	},
+	"probe/csca-v1-no-extensions": func(t *testing.T, sc Scenario, f *Facts, a []AnchorFacts) {
+		if a[0].Version != 1 || a[0].HasExtensions || a[0].IsCA || !eqInts(f.Certs[0].ChainsTo, ints(0)) {
+			t.Errorf("facts: %+v", a[0])
+		}
+	},
+	"probe/ds-unknown-extension-critical-false-explicit": func(t *testing.T, sc Scenario, f *Facts, _ []AnchorFacts) {
+		if f.Certs[0].UnknownCriticalExt || !eqInts(f.Certs[0].ChainsTo, ints(0)) {
+			t.Errorf("facts: %+v", f.Certs[0])
+		}
+	},
+	"probe/country-lower-case-in-certificates": func(t *testing.T, sc Scenario, f *Facts, _ []AnchorFacts) {
+		if f.Certs[0].Country != "nl" {
+			t.Errorf("Country %q", f.Certs[0].Country)
+		}
+	},
+	"probe/ds-with-critical-eku-unrelated": func(t *testing.T, sc Scenario, f *Facts, _ []AnchorFacts) {
+		if !f.Certs[0].HasEKU || !f.Certs[0].EKUCritical || len(f.Certs[0].EKU) != 1 {
+			t.Errorf("facts: %+v", f.Certs[0])
+		}
+	},
+}
+
+func sigOK(t *testing.T, sc Scenario, f *Facts, _ []AnchorFacts) {
+	if !eqInts(f.Signers[0].SigVerifiesUnder, ints(0)) {
+		t.Errorf("SigVerifiesUnder = %v", f.Signers[0].SigVerifiesUnder)
+	}
+}
+
+var checksUsed sync.Map
+
+// evaluate runs one scenario through the facts and through the library.
+func evaluate(t *testing.T, sc Scenario) {
+	t.Helper()
+	obj := sc.SOD
+	if sc.MasterList != nil {
+		obj = sc.MasterList
+	}
+	f, a := ComputeFacts(obj, sc.DGs, sc.Trust)
+	if f.InternalPanic != "" {
+		t.Fatalf("%s: internal panic %s", sc.Name, f.InternalPanic)
+	}
+	if !f.Parseable || len(f.Signers) == 0 {
+		t.Fatalf("%s: facts unusable: %+v", sc.Name, f)
+	}
+	if sc.Class == "genuine" && sc.MasterList == nil {
+		checkGenuineFacts(t, sc, f, a)
+	}
+	if strings.HasPrefix(sc.Name, "genuine/cross-signed/") || strings.HasPrefix(sc.Name, "forgery/cross-signed/") {
+		want := strings.Count(sc.Name, "self") + strings.Count(sc.Name, "cross") - 1 // "cross-signed/" itself
+		if len(f.Certs[0].ChainsTo) != want {
+			t.Errorf("%s: ChainsTo %v, want %d entries", sc.Name, f.Certs[0].ChainsTo, want)
+		}
+		for j, c := range a {
+			if !c.SelfIssued && (c.SelfSigned || !c.IsCA) {
+				t.Errorf("%s: cross certificate %d facts wrong", sc.Name, j)
+			}
+		}
+	}
+	if chk, ok := factChecks[sc.Name]; ok {
+		checksUsed.Store(sc.Name, true)
+		chk(t, sc, f, a)
+	}
+	judge(t, sc, runLibrary(sc))
 }
 
 func TestPassiveAuthMatrix(t *testing.T) {
@@ -196,722 +700,132 @@ func TestPassiveAuthMatrix(t *testing.T) {
 	for i, ks := range specs {
 		ks := ks
 		t.Run(ks.String(), func(t *testing.T) {
-			w := newWorld(t, int64(100+i), ks)
-			sod, err := BuildSOD(NewSODSpec(w.ds, w.dgs, signingTime))
+			scs, err := BaseScenarios(int64(100+i), ks)
 			if err != nil {
 				t.Fatal(err)
 			}
-			trust := [][]byte{w.csca.Cert}
-
-			// independent facts
-			f, anchors := ComputeFacts(sod, w.dgs, trust)
-			checkGenuineFacts(t, "genuine", f, anchors, w.dgs)
-			if f.SigningTime == nil || !f.SigningTime.Equal(signingTime) {
-				t.Errorf("SigningTime fact %v", f.SigningTime)
+			if len(scs) != 7 {
+				t.Fatalf("%d base scenarios", len(scs))
 			}
-			a := anchors[0]
-			if !a.Parseable || !a.SelfSigned || !a.IsCA || !a.KUKeyCertSign || a.Country != "NL" || a.UnknownCriticalExt || !eqInts(a.ChainsTo, ints(0)) {
-				t.Errorf("anchor facts wrong: %+v", a)
-			}
-
-			// the real library
-			res, err := runPA(sod, w.dgs, nil, trust)
-			if err != nil {
-				deviation(t, "reject-genuine/"+ks.String(), "genuine SOD rejected: %v", err)
-			} else if len(res.Sod.CertChain) != 2 || !bytes.Equal(res.Sod.CertChain[0], w.ds.Cert) || !bytes.Equal(res.Sod.CertChain[1], w.csca.Cert) {
-				t.Errorf("unexpected cert chain")
-			}
-
-			// CSCA absent (another CSCA of the same country and name with another key is present)
-			other2, err := NewCA(CertSpec{Rand: detRand(int64(950 + i)), Subject: DN("NL", "State of the Netherlands", "CSCA NL"), KeySpec: ks, KeySlot: 2})
-			if err != nil {
-				t.Fatal(err)
-			}
-			if _, err := runPA(sod, w.dgs, nil, [][]byte{other2.Cert}); err == nil {
-				deviation(t, "accept-without-csca/"+ks.String(), "SOD accepted although its CSCA is not in the trust store")
-			}
-			f2, _ := ComputeFacts(sod, w.dgs, [][]byte{other2.Cert})
-			if len(f2.Certs[0].ChainsTo) != 0 {
-				t.Errorf("ChainsTo must be empty with a foreign CSCA")
-			}
-			if _, err := runPA(sod, w.dgs, nil, nil); err == nil {
-				deviation(t, "accept-empty-store/"+ks.String(), "SOD accepted with an empty trust store")
-			}
-
-			// DG byte flipped
-			for _, n := range []int{1, 2} {
-				dgs := cloneDGs(w.dgs)
-				if n == 1 {
-					// keep the MRZ check digits valid: change a letter of the name field
-					dgs[1][bytes.Index(dgs[1], []byte("ANNA"))] = 'B'
-				} else {
-					dgs[2][len(dgs[2])/2] ^= 0x01
-				}
-				if _, err := runPA(sod, dgs, nil, trust); err == nil {
-					deviation(t, fmt.Sprintf("accept-dg%d-flip/%s", n, ks), "altered DG%d accepted", n)
-				}
-				ff, _ := ComputeFacts(sod, dgs, trust)
-				if ff.DGHashOK[n] || !ff.DGHashOK[3-n] {
-					t.Errorf("DGHashOK after DG%d flip: %v", n, ff.DGHashOK)
-				}
-			}
-
-			// signature bit flipped
-			spec := NewSODSpec(w.ds, w.dgs, signingTime)
-			spec.SD.Signers[0].CorruptSignature = true
-			bad, err := BuildSOD(spec)
-			if err != nil {
-				t.Fatal(err)
-			}
-			if _, err := runPA(bad, w.dgs, nil, trust); err == nil {
-				deviation(t, "accept-bad-signature/"+ks.String(), "SOD with corrupted signature accepted")
-			}
-			ff, _ := ComputeFacts(bad, w.dgs, trust)
-			if len(ff.Signers) != 1 || len(ff.Signers[0].SigVerifiesUnder) != 0 || !ff.MessageDigestOK {
-				t.Errorf("facts after signature flip wrong: %+v", ff.Signers)
-			}
-
-			// a byte of the signed attributes flipped in the raw object (signing time)
-			raw := append([]byte{}, sod...)
-			idx := bytes.Index(raw, []byte(signingTime.Format("060102150405Z")))
-			if idx < 0 {
-				t.Fatal("signing time not found")
-			}
-			raw[idx+1] ^= 0x01
-			if _, err := runPA(raw, w.dgs, nil, trust); err == nil {
-				deviation(t, "accept-attr-flip/"+ks.String(), "SOD with altered signed attribute accepted")
-			}
-			ff, _ = ComputeFacts(raw, w.dgs, trust)
-			if len(ff.Signers) != 1 || len(ff.Signers[0].SigVerifiesUnder) != 0 {
-				t.Errorf("facts after attribute flip wrong")
+			for _, sc := range scs {
+				evaluate(t, sc)
 			}
 		})
 	}
 }
 
-// variantSpecs are the key specs used for the structural variants.
-func variantSpecs() []KeySpec {
+// scenarioSpecs are the key specs for which the complete scenario set is run.
+func scenarioSpecs() []KeySpec {
 	return []KeySpec{
 		{Kind: "rsa", Bits: 2048, Hash: "sha256"},
 		{Kind: "ecdsa", Curve: "brainpoolP256r1", ExplicitParams: true, Hash: "sha256"},
+		{Kind: "rsa-pss", Bits: 2048, Hash: "sha256"},
+		{Kind: "rsa-pss", Bits: 2048, Hash: "sha1"},
+		{Kind: "ecdsa", Curve: "P-256", Hash: "sha256"},
+		{Kind: "ecdsa", Curve: "brainpoolP192r1", ExplicitParams: true, Hash: "sha1"},
+		{Kind: "ecdsa", Curve: "brainpoolP224r1", ExplicitParams: true, Hash: "sha224"},
+		{Kind: "ecdsa", Curve: "brainpoolP384r1", Hash: "sha384"},
 	}
 }
 
-func TestSODVariants(t *testing.T) {
+func variantSpecs() []KeySpec { return scenarioSpecs()[:2] }
+
+func TestScenarios(t *testing.T) {
+	names := map[string]map[string]bool{"genuine": {}, "forgery": {}, "probe": {}}
+	for i, ks := range scenarioSpecs() {
+		ks := ks
+		scs, err := Scenarios(int64(200+i), ks)
+		if err != nil {
+			t.Fatal(err)
+		}
+		// same seed, same bytes
+		if i < 3 {
+			again, err := Scenarios(int64(200+i), ks)
+			if err != nil || len(again) != len(scs) {
+				t.Fatalf("second generation: %v", err)
+			}
+			for k := range scs {
+				if !bytes.Equal(scs[k].SOD, again[k].SOD) || !bytes.Equal(scs[k].MasterList, again[k].MasterList) || !bytes.Equal(scs[k].CardSec, again[k].CardSec) {
+					t.Errorf("%s %s: not reproducible from the seed", ks, scs[k].Name)
+				}
+			}
+		}
+		for _, sc := range scs {
+			sc := sc
+			names[sc.Class][sc.Name] = true
+			t.Run(ks.String()+"/"+sc.Name, func(t *testing.T) { evaluate(t, sc) })
+		}
+	}
+	for name := range factChecks {
+		if _, ok := checksUsed.Load(name); !ok {
+			t.Errorf("fact check for %q was never used (scenario renamed?)", name)
+		}
+	}
+	for _, class := range []string{"genuine", "forgery", "probe"} {
+		var l []string
+		for n := range names[class] {
+			l = append(l, n)
+		}
+		sort.Strings(l)
+		t.Logf("%d %s scenarios:\n  %s", len(l), class, strings.Join(l, "\n  "))
+	}
+}
+
+func TestGenuineScenarioVariants(t *testing.T) {
+	vs := []Variant{
+		{},
+		{SIDSKI: true},
+		{LDSv1: true},
+		{Indefinite: true},
+		{NoSigningTime: true},
+		{ExtraCertsBefore: 1},
+		{ExtraCertsAfter: 1},
+		{ExtraCertsBefore: 2, ExtraCertsAfter: 2},
+		{CrossSignedFirst: true},
+		{CrossSignedSecond: true},
+		{RDNOrderPermuted: true},
+		{NameStringType: "printable"},
+		{NameStringType: "utf8"},
+		{SigningTimeAtNotBefore: true},
+		{SigningTimeAtNotAfter: true},
+		{WithCardSecurity: true},
+		{SIDSKI: true, LDSv1: true, Indefinite: true, ExtraCertsBefore: 1, ExtraCertsAfter: 1, CrossSignedFirst: true, CrossSignedSecond: true, RDNOrderPermuted: true, NameStringType: "printable", SigningTimeAtNotAfter: true, WithCardSecurity: true},
+		{SIDSKI: true, NoSigningTime: true, ExtraCertsBefore: 3, CrossSignedSecond: true, RDNOrderPermuted: true, WithCardSecurity: true},
+	}
 	for i, ks := range variantSpecs() {
-		w := newWorld(t, int64(200+i), ks)
-		trust := [][]byte{w.csca.Cert}
-		type variant struct {
-			name string
-			mod  func(s *SODSpec)
-			chk  func(t *testing.T, f *Facts)
-		}
-		variants := []variant{
-			{"indefinite", func(s *SODSpec) { s.SD.Indefinite = true }, func(t *testing.T, f *Facts) {
-				if !f.Indefinite {
-					t.Error("Indefinite fact false")
-				}
-			}},
-			{"indefinite-sets", func(s *SODSpec) { s.SD.Indefinite = true; s.SD.IndefiniteSets = true }, nil},
-			{"indefinite-chunked-econtent", func(s *SODSpec) { s.SD.Indefinite = true; s.SD.EContentChunk = 32 }, nil},
-			{"definite-chunked-econtent", func(s *SODSpec) { s.SD.EContentChunk = 50 }, nil},
-			{"wrap77-indefinite", func(s *SODSpec) { s.SD.Indefinite = true; s.SD.Wrap77Indefinite = true }, nil},
-			{"sid-ski", func(s *SODSpec) { s.SD.Signers[0].SID = SIDSubjectKeyID }, func(t *testing.T, f *Facts) {
-				if f.Signers[0].SIDForm != "ski" || f.Signers[0].Version != 3 {
-					t.Errorf("SID facts: %+v", f.Signers[0])
-				}
-			}},
-			{"lds-v1", func(s *SODSpec) { s.LDSVersion = 1 }, func(t *testing.T, f *Facts) {
-				if f.LDSVersion != 1 || f.LDSVersionInfo == nil || f.LDSVersionInfo[0] != "0108" {
-					t.Errorf("LDS v1 facts: %v %v", f.LDSVersion, f.LDSVersionInfo)
-				}
-			}},
-			{"no-signing-time", func(s *SODSpec) { s.SD.Signers[0].SigningTime = nil }, func(t *testing.T, f *Facts) {
-				if f.SigningTime != nil || f.Signers[0].SigningTimePresent {
-					t.Error("SigningTime fact should be absent")
-				}
-			}},
-			{"generalized-signing-time", func(s *SODSpec) { s.SD.Signers[0].SigningTimeForm = TimeGeneralized }, nil},
-			{"extra-cert-after", func(s *SODSpec) { s.SD.Certs = [][]byte{w.ds.Cert, w.csca.Cert} }, nil},
-			{"extra-cert-before", func(s *SODSpec) { s.SD.Certs = [][]byte{w.csca.Cert, w.ds.Cert} }, func(t *testing.T, f *Facts) {
-				if !eqInts(f.Signers[0].MatchedEmbeddedCerts, ints(1)) {
-					t.Errorf("matched %v", f.Signers[0].MatchedEmbeddedCerts)
-				}
-			}},
-			{"digest-null-params", func(s *SODSpec) {
-				s.HashAlgNull = true
-				s.SD.DigestAlgNull = true
-				s.SD.Signers[0].DigestAlgNull = true
-			}, nil},
-			{"rsa-encryption-oid", func(s *SODSpec) {
-				if ks.Kind == "rsa" {
-					s.SD.Signers[0].SigAlg = &SigAlg{Kind: "rsa", Hash: ks.Hash, PlainRSAOID: true}
-				}
-			}, nil},
-			{"lds-hash-differs-from-signer-digest", func(s *SODSpec) { s.DigestAlg = "sha512" }, func(t *testing.T, f *Facts) {
-				if f.DigestAlg != "sha512" || f.Signers[0].DigestAlg != "sha256" {
-					t.Errorf("digest facts %s %s", f.DigestAlg, f.Signers[0].DigestAlg)
-				}
-			}},
-			{"dg-order-descending", func(s *SODSpec) { s.DGOrder = []int{2, 1} }, nil},
-		}
-		for _, v := range variants {
+		for _, v := range vs {
 			v := v
-			t.Run(ks.String()+"/"+v.name, func(t *testing.T) {
-				spec := NewSODSpec(w.ds, w.dgs, signingTime)
-				v.mod(&spec)
-				sod, err := BuildSOD(spec)
+			t.Run(ks.String()+"/"+v.String(), func(t *testing.T) {
+				sc, err := GenuineScenario(int64(300+i), ks, v)
 				if err != nil {
 					t.Fatal(err)
 				}
-				f, anchors := ComputeFacts(sod, w.dgs, trust)
-				checkGenuineFacts(t, v.name, f, anchors, w.dgs)
-				if v.chk != nil {
-					v.chk(t, f)
+				if (sc.CardSec != nil) != v.WithCardSecurity {
+					t.Errorf("CardSec presence")
 				}
-				if _, err := runPA(sod, w.dgs, nil, trust); err != nil {
-					deviation(t, "reject-variant/"+v.name+"/"+ks.Kind, "genuine SOD variant rejected: %v", err)
+				evaluate(t, sc)
+				f, _ := ComputeFacts(sc.SOD, sc.DGs, sc.Trust)
+				if (f.Signers[0].SIDForm == "ski") != v.SIDSKI || (f.LDSVersion == 1) != v.LDSv1 || f.Indefinite != v.Indefinite ||
+					(f.SigningTime == nil) != v.NoSigningTime || len(f.Certs) != 1+v.ExtraCertsBefore+v.ExtraCertsAfter ||
+					!eqInts(f.Signers[0].MatchedEmbeddedCerts, ints(v.ExtraCertsBefore)) {
+					t.Errorf("variant not reflected in the facts: %+v", f.Signers[0])
 				}
-			})
-		}
-	}
-}
-
-func TestCrossSignedCSCA(t *testing.T) {
-	for i, ks := range variantSpecs() {
-		t.Run(ks.String(), func(t *testing.T) {
-			rnd := detRand(int64(300 + i))
-			old, err := NewCA(CertSpec{Rand: rnd, Subject: DN("NL", "State", "CSCA NL G1"), KeySpec: ks, KeySlot: 2})
-			if err != nil {
-				t.Fatal(err)
-			}
-			w := newWorld(t, int64(310+i), ks) // w.csca = new generation, self-signed
-			cross, err := old.CrossSign(w.csca, CertSpec{})
-			if err != nil {
-				t.Fatal(err)
-			}
-			if !bytes.Equal(cross.SKI, w.csca.SKI) || bytes.Equal(cross.IssuerDER, w.csca.IssuerDER) || !bytes.Equal(cross.Key.SPKI(), w.csca.Key.SPKI()) {
-				t.Fatal("cross certificate is not (same key, same SKI, other issuer)")
-			}
-			// same SKI, other key: must be skipped by the verifier, not be fatal
-			decoy, err := NewCA(CertSpec{Rand: rnd, Subject: DN("NL", "State", "CSCA NL decoy"), KeySpec: ks, KeySlot: 3, SKI: &KeyID{Value: w.csca.SKI}})
-			if err != nil {
-				t.Fatal(err)
-			}
-			sod, err := BuildSOD(NewSODSpec(w.ds, w.dgs, signingTime))
-			if err != nil {
-				t.Fatal(err)
-			}
-			stores := map[string][][]byte{
-				"self,cross":       {w.csca.Cert, cross.Cert},
-				"cross,self":       {cross.Cert, w.csca.Cert},
-				"cross-only":       {cross.Cert},
-				"decoy,self":       {decoy.Cert, w.csca.Cert},
-				"self,decoy":       {w.csca.Cert, decoy.Cert},
-				"old,decoy,cross":  {old.Cert, decoy.Cert, cross.Cert},
-				"cross,old,decoy,": {cross.Cert, old.Cert, decoy.Cert},
-			}
-			for name, store := range stores {
-				f, anchors := ComputeFacts(sod, w.dgs, store)
-				var want []int
-				for j, c := range store {
-					if bytes.Equal(c, w.csca.Cert) || bytes.Equal(c, cross.Cert) {
-						want = append(want, j)
-					}
+				want := 1
+				if v.CrossSignedFirst {
+					want++
 				}
-				if !eqInts(f.Certs[0].ChainsTo, want) {
-					t.Errorf("%s: ChainsTo %v want %v", name, f.Certs[0].ChainsTo, want)
+				if v.CrossSignedSecond {
+					want++
 				}
-				if len(f.Certs[0].AKIMatches) < len(want) {
-					t.Errorf("%s: AKIMatches %v", name, f.Certs[0].AKIMatches)
+				ds := f.Certs[v.ExtraCertsBefore]
+				if len(ds.ChainsTo) != want || len(sc.Trust) != want {
+					t.Errorf("ChainsTo %v with %d anchors", ds.ChainsTo, len(sc.Trust))
 				}
-				for j, c := range store {
-					if bytes.Equal(c, cross.Cert) && (anchors[j].SelfSigned || anchors[j].SelfIssued || !anchors[j].IsCA) {
-						t.Errorf("%s: cross certificate facts wrong", name)
-					}
+				if v.RDNOrderPermuted != strings.HasPrefix(ds.Issuer, "CN=") {
+					t.Errorf("issuer %q", ds.Issuer)
 				}
-				res, err := runPA(sod, w.dgs, nil, store)
-				if err != nil {
-					deviation(t, "reject-cross-signed/"+name+"/"+ks.Kind, "store %s: genuine SOD rejected: %v", name, err)
-					continue
-				}
-				used := res.Sod.CertChain[len(res.Sod.CertChain)-1]
-				if !bytes.Equal(used, w.csca.Cert) && !bytes.Equal(used, cross.Cert) {
-					t.Errorf("%s: chain ends in a certificate that does not carry the CSCA key", name)
-				}
-			}
-			// only the decoy / only the old CSCA: must fail
-			for name, store := range map[string][][]byte{"decoy-only": {decoy.Cert}, "old-only": {old.Cert}, "old,decoy": {old.Cert, decoy.Cert}} {
-				if _, err := runPA(sod, w.dgs, nil, store); err == nil {
-					deviation(t, "accept-wrong-anchor/"+name+"/"+ks.Kind, "store %s: accepted", name)
-				}
-				f, _ := ComputeFacts(sod, w.dgs, store)
-				if len(f.Certs[0].ChainsTo) != 0 {
-					t.Errorf("%s: ChainsTo %v", name, f.Certs[0].ChainsTo)
-				}
-			}
-		})
-	}
-}
-
-// a minimal SecurityInfos: SET { PACEInfo { id-PACE-ECDH-GM-AES-CBC-CMAC-128, version 2, parameterId 13 } }
-func testSecurityInfos() []byte {
-	return SetOf(Seq(OID("0.4.0.127.0.7.2.2.4.2.2"), IntN(2), IntN(13)))
-}
-
-func TestCardSecurity(t *testing.T) {
-	for i, ks := range variantSpecs() {
-		t.Run(ks.String(), func(t *testing.T) {
-			w := newWorld(t, int64(400+i), ks)
-			trust := [][]byte{w.csca.Cert}
-			sod, err := BuildSOD(NewSODSpec(w.ds, w.dgs, signingTime))
-			if err != nil {
-				t.Fatal(err)
-			}
-			cs, err := BuildCardSecurity(NewCardSecuritySpec(w.ds, testSecurityInfos(), signingTime))
-			if err != nil {
-				t.Fatal(err)
-			}
-			f, _ := ComputeFacts(cs, nil, trust)
-			if !f.Parseable || f.EContentType != OIDSecurityObject || f.Wrapped77 || !f.MessageDigestOK || !f.ContentTypeOK ||
-				!eqInts(f.Signers[0].SigVerifiesUnder, ints(0)) || !eqInts(f.Certs[0].ChainsTo, ints(0)) || !bytes.Equal(f.EContent, testSecurityInfos()) {
-				t.Errorf("CardSecurity facts wrong: %+v", f)
-			}
-			res, err := runPA(sod, w.dgs, cs, trust)
-			if err != nil {
-				deviation(t, "reject-cardsecurity/"+ks.Kind, "genuine CardSecurity rejected: %v", err)
-			} else if res.CardSec == nil || len(res.CardSec.CertChain) != 2 {
-				t.Errorf("CardSec chain missing")
-			}
-			// forged: signed by an adversary key but carrying the DS certificate
-			adv, err := GenerateKeySlot(detRand(int64(450+i)), ks, 4)
-			if err != nil {
-				t.Fatal(err)
-			}
-			spec := NewCardSecuritySpec(w.ds, testSecurityInfos(), signingTime)
-			spec.SD.Signers[0].Key = adv
-			forged, err := BuildCardSecurity(spec)
-			if err != nil {
-				t.Fatal(err)
-			}
-			if _, err := runPA(sod, w.dgs, forged, trust); err == nil {
-				deviation(t, "accept-forged-cardsecurity/"+ks.Kind, "CardSecurity signed by a foreign key accepted")
-			}
-			ff, _ := ComputeFacts(forged, nil, trust)
-			if len(ff.Signers[0].SigVerifiesUnder) != 0 || !eqInts(ff.Signers[0].MatchedEmbeddedCerts, ints(0)) {
-				t.Errorf("forged CardSecurity facts wrong")
-			}
-			// indefinite-length CardSecurity
-			spec = NewCardSecuritySpec(w.ds, testSecurityInfos(), signingTime)
-			spec.SD.Indefinite = true
-			ind, err := BuildCardSecurity(spec)
-			if err != nil {
-				t.Fatal(err)
-			}
-			fi, _ := ComputeFacts(ind, nil, trust)
-			if !fi.Parseable || !fi.Indefinite || !eqInts(fi.Signers[0].SigVerifiesUnder, ints(0)) {
-				t.Errorf("indefinite CardSecurity facts wrong")
-			}
-			if _, err := runPA(sod, w.dgs, ind, trust); err != nil {
-				deviation(t, "reject-cardsecurity-indefinite/"+ks.Kind, "genuine CardSecurity in BER indefinite-length form rejected: %v", err)
-			}
-		})
-	}
-}
-
-func TestMasterList(t *testing.T) {
-	for i, ks := range variantSpecs() {
-		t.Run(ks.String(), func(t *testing.T) {
-			rnd := detRand(int64(500 + i))
-			root, err := NewCA(CertSpec{Rand: rnd, Subject: DN("NL", "State", "CSCA NL"), KeySpec: ks})
-			if err != nil {
-				t.Fatal(err)
-			}
-			mls, err := root.IssueMLSigner(CertSpec{Subject: DN("NL", "State", "Master List Signer"), KeySlot: 1})
-			if err != nil {
-				t.Fatal(err)
-			}
-			de, err := NewCA(CertSpec{Rand: rnd, Subject: DN("DE", "Bund", "CSCA DE"), KeySpec: KeySpec{Kind: "ecdsa", Curve: "brainpoolP384r1", ExplicitParams: true, Hash: "sha384"}})
-			if err != nil {
-				t.Fatal(err)
-			}
-			fr, err := NewCA(CertSpec{Rand: rnd, Subject: DN("FR", "Gouv", "CSCA FR"), KeySpec: KeySpec{Kind: "rsa-pss", Bits: 2048, Hash: "sha256"}, KeySlot: 2})
-			if err != nil {
-				t.Fatal(err)
-			}
-			frLink, err := fr.IssueCA(CertSpec{Subject: DN("FR", "Gouv", "CSCA FR G2"), KeySpec: KeySpec{Kind: "ecdsa", Curve: "P-256", Hash: "sha256"}})
-			if err != nil {
-				t.Fatal(err)
-			}
-			certs := [][]byte{root.Cert, de.Cert, fr.Cert, frLink.Cert}
-			st := signingTime
-			ml, err := BuildMasterList(mls, certs, MasterListSpec{SigningTime: &st, ExtraCerts: [][]byte{root.Cert}})
-			if err != nil {
-				t.Fatal(err)
-			}
-			f, _ := ComputeFacts(ml, nil, [][]byte{root.Cert})
-			if !f.Parseable || !f.MasterListParseable || len(f.MasterListCerts) != 4 || f.EContentType != OIDCscaMasterList ||
-				!eqInts(f.Signers[0].SigVerifiesUnder, ints(0)) || !eqInts(f.Certs[0].ChainsTo, ints(0)) || !f.MessageDigestOK {
-				t.Errorf("master list facts wrong: %+v", f)
-			}
-			pool, err := func() (p *cms.SignedDataCertPool, err error) {
-				defer func() {
-					if r := recover(); r != nil {
-						err = fmt.Errorf("PANIC: %v", r)
-					}
-				}()
-				return cms.CreateCertPoolFromSignedData(ml, root.Cert)
-			}()
-			if err != nil {
-				deviation(t, "reject-masterlist/"+ks.Kind, "genuine master list rejected: %v", err)
-			} else {
-				var got, want []string
-				for _, c := range pool.All() {
-					got = append(got, string(c.Raw))
-				}
-				for _, c := range certs {
-					want = append(want, string(c))
-				}
-				sort.Strings(got)
-				sort.Strings(want)
-				if strings.Join(got, "|") != strings.Join(want, "|") {
-					t.Errorf("pool does not contain exactly the master list certificates (%d vs %d)", len(got), len(want))
-				}
-				if n := len(pool.ByIssuerCountry("FR")); n != 2 {
-					t.Errorf("ByIssuerCountry(FR) = %d", n)
-				}
-			}
-			// master list signed by a plain document signer (no extendedKeyUsage): logged, ICAO 9303-12 requires the EKU
-			plainDS, err := root.IssueDS(CertSpec{Subject: DN("NL", "State", "DS"), KeySlot: 1})
-			if err != nil {
-				t.Fatal(err)
-			}
-			mlByDS, _ := BuildMasterList(plainDS, certs, MasterListSpec{SigningTime: &st})
-			_, dsErr := cms.CreateCertPoolFromSignedData(mlByDS, root.Cert)
-			t.Logf("PROBE master-list-signed-by-plain-ds: library accepts=%v", dsErr == nil)
-			// forged master list: corrupted signature / signed under another root
-			bad, _ := BuildMasterList(mls, certs, MasterListSpec{SigningTime: &st, SD: SignedDataSpec{Signers: []SignerSpec{{ID: &mls.Entity, SigningTime: &st, CorruptSignature: true}}}})
-			if _, err := cms.CreateCertPoolFromSignedData(bad, root.Cert); err == nil {
-				deviation(t, "accept-forged-masterlist/"+ks.Kind, "master list with corrupted signature accepted")
-			}
-			if _, err := cms.CreateCertPoolFromSignedData(ml, de.Cert); err == nil {
-				deviation(t, "accept-masterlist-foreign-root/"+ks.Kind, "master list accepted under a foreign root")
-			}
-			fb, _ := ComputeFacts(bad, nil, [][]byte{root.Cert})
-			if len(fb.Signers[0].SigVerifiesUnder) != 0 {
-				t.Errorf("forged master list facts wrong")
-			}
-		})
-	}
-}
-
-// forgery is one deliberately wrong object together with the fact that must flip.
-type forgery struct {
-	name string
-	// build returns the SOD, the DGs and the trust store for the forgery.
-	build func(t *testing.T, w *world, adv *world) ([]byte, map[int][]byte, [][]byte)
-	check func(t *testing.T, f *Facts, anchors []AnchorFacts)
-	// libraryMayAccept: the library accepting is not by itself against the standards
-	libraryMayAccept bool
-}
-
-func mustSOD(t *testing.T, s SODSpec) []byte {
-	t.Helper()
-	b, err := BuildSOD(s)
-	if err != nil {
-		t.Fatal(err)
-	}
-	return b
-}
-
-func TestForgeries(t *testing.T) {
-	after := time.Date(2036, 1, 1, 0, 0, 0, 0, time.UTC)
-	before := time.Date(2019, 1, 1, 0, 0, 0, 0, time.UTC)
-	forgeries := []forgery{
-		{name: "message-digest-mismatch",
-			build: func(t *testing.T, w, adv *world) ([]byte, map[int][]byte, [][]byte) {
-				s := NewSODSpec(w.ds, w.dgs, signingTime)
-				s.SD.Signers[0].MessageDigest = Digest("sha256", []byte("other"))
-				return mustSOD(t, s), w.dgs, [][]byte{w.csca.Cert}
-			},
-			check: func(t *testing.T, f *Facts, _ []AnchorFacts) {
-				if f.MessageDigestOK || !eqInts(f.Signers[0].SigVerifiesUnder, ints(0)) {
-					t.Errorf("want MessageDigestOK=false with a verifying signature: %+v", f.Signers[0])
-				}
-			}},
-		{name: "econtent-swapped-after-signing",
-			build: func(t *testing.T, w, adv *world) ([]byte, map[int][]byte, [][]byte) {
-				// hash list re-computed for altered DG2 but signed attributes (messageDigest) and signature kept from the genuine object
-				dgs := cloneDGs(w.dgs)
-				dgs[2][10] ^= 0xff
-				genuine := NewSODSpec(w.ds, w.dgs, signingTime)
-				lso, _ := genuine.LDSSecurityObject()
-				s := NewSODSpec(w.ds, dgs, signingTime)
-				s.SD.Signers[0].MessageDigest = Digest(w.ds.Key.Spec.Hash, lso)
-				return mustSOD(t, s), dgs, [][]byte{w.csca.Cert}
-			},
-			check: func(t *testing.T, f *Facts, _ []AnchorFacts) {
-				if f.MessageDigestOK || !f.DGHashOK[2] {
-					t.Errorf("want MessageDigestOK=false, DGHashOK[2]=true: %v %v", f.MessageDigestOK, f.DGHashOK)
-				}
-			}},
-		{name: "content-type-mismatch",
-			build: func(t *testing.T, w, adv *world) ([]byte, map[int][]byte, [][]byte) {
-				s := NewSODSpec(w.ds, w.dgs, signingTime)
-				s.SD.Signers[0].ContentType = OIDData
-				return mustSOD(t, s), w.dgs, [][]byte{w.csca.Cert}
-			},
-			check: func(t *testing.T, f *Facts, _ []AnchorFacts) {
-				if f.ContentTypeOK || !f.MessageDigestOK {
-					t.Errorf("want ContentTypeOK=false")
-				}
-			}},
-		{name: "no-content-type-attr",
-			build: func(t *testing.T, w, adv *world) ([]byte, map[int][]byte, [][]byte) {
-				s := NewSODSpec(w.ds, w.dgs, signingTime)
-				s.SD.Signers[0].OmitContentType = true
-				return mustSOD(t, s), w.dgs, [][]byte{w.csca.Cert}
-			},
-			check: func(t *testing.T, f *Facts, _ []AnchorFacts) {
-				if f.ContentTypeOK || f.Signers[0].ContentTypePresent {
-					t.Errorf("want ContentTypePresent=false")
-				}
-			}},
-		{name: "no-message-digest-attr",
-			build: func(t *testing.T, w, adv *world) ([]byte, map[int][]byte, [][]byte) {
-				s := NewSODSpec(w.ds, w.dgs, signingTime)
-				s.SD.Signers[0].OmitMessageDigest = true
-				return mustSOD(t, s), w.dgs, [][]byte{w.csca.Cert}
-			},
-			check: func(t *testing.T, f *Facts, _ []AnchorFacts) {
-				if f.MessageDigestOK || f.Signers[0].MessageDigestPresent {
-					t.Errorf("want MessageDigestPresent=false")
-				}
-			}},
-		{name: "signed-by-other-key",
-			build: func(t *testing.T, w, adv *world) ([]byte, map[int][]byte, [][]byte) {
-				s := NewSODSpec(w.ds, w.dgs, signingTime)
-				s.SD.Signers[0].Key = adv.ds.Key
-				return mustSOD(t, s), w.dgs, [][]byte{w.csca.Cert}
-			},
-			check: func(t *testing.T, f *Facts, _ []AnchorFacts) {
-				if len(f.Signers[0].SigVerifiesUnder) != 0 || !eqInts(f.Signers[0].MatchedEmbeddedCerts, ints(0)) {
-					t.Errorf("want SigVerifiesUnder empty")
-				}
-			}},
-		{name: "adversary-ds-same-names",
-			build: func(t *testing.T, w, adv *world) ([]byte, map[int][]byte, [][]byte) {
-				// adversary CA and DS with the genuine names, SKI/AKI values and serial; genuine CSCA in the store
-				return mustSOD(t, NewSODSpec(adv.ds, w.dgs, signingTime)), w.dgs, [][]byte{w.csca.Cert}
-			},
-			check: func(t *testing.T, f *Facts, _ []AnchorFacts) {
-				if !eqInts(f.Signers[0].SigVerifiesUnder, ints(0)) || len(f.Certs[0].ChainsTo) != 0 || !eqInts(f.Certs[0].AKIMatches, ints(0)) || !eqInts(f.Certs[0].IssuerMatches, ints(0)) {
-					t.Errorf("want a verifying signature, AKI and issuer name matching the anchor, but ChainsTo empty: %+v", f.Certs[0])
-				}
-			}},
-		{name: "both-ds-embedded-adversary-signs-with-genuine-sid",
-			build: func(t *testing.T, w, adv *world) ([]byte, map[int][]byte, [][]byte) {
-				s := NewSODSpec(w.ds, w.dgs, signingTime) // SID -> genuine DS
-				s.SD.Signers[0].Key = adv.ds.Key
-				s.SD.Certs = [][]byte{adv.ds.Cert, w.ds.Cert}
-				return mustSOD(t, s), w.dgs, [][]byte{w.csca.Cert}
-			},
-			check: func(t *testing.T, f *Facts, _ []AnchorFacts) {
-				// same issuer name and serial: SID matches both; signature verifies only under the adversary certificate, which does not chain
-				if !eqInts(f.Signers[0].SigVerifiesUnder, ints(0)) || len(f.Certs[0].ChainsTo) != 0 || !eqInts(f.Certs[1].ChainsTo, ints(0)) {
-					t.Errorf("facts: %+v", f.Signers[0])
-				}
-			}},
-		{name: "adversary-ca-in-store-other-country",
-			build: func(t *testing.T, w, adv *world) ([]byte, map[int][]byte, [][]byte) {
-				ca, _ := NewCA(CertSpec{Rand: detRand(77), Subject: DN("DE", "Evil", "CSCA"), KeySpec: w.csca.Key.Spec, KeySlot: 5})
-				ds, _ := ca.IssueDS(CertSpec{Subject: DN("DE", "Evil", "DS"), KeySlot: 6})
-				return mustSOD(t, NewSODSpec(ds, w.dgs, signingTime)), w.dgs, [][]byte{w.csca.Cert, ca.Cert}
-			},
-			check: func(t *testing.T, f *Facts, a []AnchorFacts) {
-				if f.Certs[0].Country != "DE" || !eqInts(f.Certs[0].ChainsTo, ints(1)) || a[1].Country != "DE" {
-					t.Errorf("facts: %+v", f.Certs[0])
-				}
-			}},
-		{name: "ds-expired-at-signing-time",
-			build: func(t *testing.T, w, adv *world) ([]byte, map[int][]byte, [][]byte) {
-				return mustSOD(t, NewSODSpec(w.ds, w.dgs, after)), w.dgs, [][]byte{w.csca.Cert}
-			},
-			check: func(t *testing.T, f *Facts, _ []AnchorFacts) {
-				if f.SigningTime == nil || !f.SigningTime.After(f.Certs[0].NotAfter) {
-					t.Errorf("want SigningTime after NotAfter")
-				}
-			}},
-		{name: "ds-not-yet-valid-at-signing-time",
-			build: func(t *testing.T, w, adv *world) ([]byte, map[int][]byte, [][]byte) {
-				return mustSOD(t, NewSODSpec(w.ds, w.dgs, before)), w.dgs, [][]byte{w.csca.Cert}
-			},
-			check: func(t *testing.T, f *Facts, _ []AnchorFacts) {
-				if f.SigningTime == nil || !f.SigningTime.Before(f.Certs[0].NotBefore) {
-					t.Errorf("want SigningTime before NotBefore")
-				}
-			}},
-		{name: "csca-expired-at-signing-time",
-			build: func(t *testing.T, w, adv *world) ([]byte, map[int][]byte, [][]byte) {
-				ca, _ := NewCA(CertSpec{Rand: detRand(78), Subject: DN("NL", "State", "CSCA short"), Key: w.csca.Key,
-					NotBefore: time.Date(2020, 1, 1, 0, 0, 0, 0, time.UTC), NotAfter: time.Date(2023, 1, 1, 0, 0, 0, 0, time.UTC)})
-				ds, _ := ca.IssueDS(CertSpec{Subject: DN("NL", "State", "DS"), Key: w.ds.Key})
-				return mustSOD(t, NewSODSpec(ds, w.dgs, signingTime)), w.dgs, [][]byte{ca.Cert}
-			},
-			check: func(t *testing.T, f *Facts, a []AnchorFacts) {
-				if !eqInts(f.Certs[0].ChainsTo, ints(0)) || !f.SigningTime.After(a[0].NotAfter) {
-					t.Errorf("want chain to an anchor that expired before the signing time")
-				}
-			}},
-		{name: "ds-without-digital-signature",
-			build: func(t *testing.T, w, adv *world) ([]byte, map[int][]byte, [][]byte) {
-				ds, _ := w.csca.IssueDS(CertSpec{Subject: DN("NL", "State", "DS"), Key: w.ds.Key, KeyUsage: &KeyUsage{Bits: []int{KUKeyEncipherment}, Critical: true}})
-				return mustSOD(t, NewSODSpec(ds, w.dgs, signingTime)), w.dgs, [][]byte{w.csca.Cert}
-			},
-			check: func(t *testing.T, f *Facts, _ []AnchorFacts) {
-				if !f.Certs[0].HasKeyUsage || f.Certs[0].KUDigitalSignature || !eqInts(f.Certs[0].KeyUsageBits, ints(KUKeyEncipherment)) {
-					t.Errorf("key usage facts: %+v", f.Certs[0])
-				}
-			}},
-		{name: "ds-without-key-usage", libraryMayAccept: true,
-			build: func(t *testing.T, w, adv *world) ([]byte, map[int][]byte, [][]byte) {
-				ds, _ := w.csca.IssueDS(CertSpec{Subject: DN("NL", "State", "DS"), Key: w.ds.Key, KeyUsage: &KeyUsage{Absent: true}})
-				return mustSOD(t, NewSODSpec(ds, w.dgs, signingTime)), w.dgs, [][]byte{w.csca.Cert}
-			},
-			check: func(t *testing.T, f *Facts, _ []AnchorFacts) {
-				if f.Certs[0].HasKeyUsage {
-					t.Errorf("HasKeyUsage should be false")
-				}
-			}},
-		{name: "ds-unknown-critical-extension",
-			build: func(t *testing.T, w, adv *world) ([]byte, map[int][]byte, [][]byte) {
-				ds, _ := w.csca.IssueDS(CertSpec{Subject: DN("NL", "State", "DS"), Key: w.ds.Key, ExtraExtensions: []Extension{{OID: "1.2.3.4.5", Critical: true, Value: Null()}}})
-				return mustSOD(t, NewSODSpec(ds, w.dgs, signingTime)), w.dgs, [][]byte{w.csca.Cert}
-			},
-			check: func(t *testing.T, f *Facts, _ []AnchorFacts) {
-				if !f.Certs[0].UnknownCriticalExt {
-					t.Errorf("UnknownCriticalExt should be true")
-				}
-			}},
-		{name: "ca-without-key-cert-sign",
-			build: func(t *testing.T, w, adv *world) ([]byte, map[int][]byte, [][]byte) {
-				ca, _ := NewCA(CertSpec{Rand: detRand(79), Subject: DN("NL", "State", "CSCA"), Key: w.csca.Key, KeyUsage: &KeyUsage{Bits: []int{KUCRLSign}, Critical: true}})
-				ds, _ := ca.IssueDS(CertSpec{Subject: DN("NL", "State", "DS"), Key: w.ds.Key})
-				return mustSOD(t, NewSODSpec(ds, w.dgs, signingTime)), w.dgs, [][]byte{ca.Cert}
-			},
-			check: func(t *testing.T, f *Facts, a []AnchorFacts) {
-				if a[0].KUKeyCertSign || !a[0].IsCA || !eqInts(f.Certs[0].ChainsTo, ints(0)) {
-					t.Errorf("anchor facts: %+v", a[0])
-				}
-			}},
-		{name: "ca-false",
-			build: func(t *testing.T, w, adv *world) ([]byte, map[int][]byte, [][]byte) {
-				ca, _ := NewCA(CertSpec{Rand: detRand(80), Subject: DN("NL", "State", "CSCA"), Key: w.csca.Key, BasicConstraints: &BasicConstraints{CA: false, Critical: true}})
-				ds, _ := ca.IssueDS(CertSpec{Subject: DN("NL", "State", "DS"), Key: w.ds.Key})
-				return mustSOD(t, NewSODSpec(ds, w.dgs, signingTime)), w.dgs, [][]byte{ca.Cert}
-			},
-			check: func(t *testing.T, f *Facts, a []AnchorFacts) {
-				if a[0].IsCA || !a[0].HasBasicConstraints || !eqInts(f.Certs[0].ChainsTo, ints(0)) {
-					t.Errorf("anchor facts: %+v", a[0])
-				}
-			}},
-		{name: "ca-no-basic-constraints",
-			build: func(t *testing.T, w, adv *world) ([]byte, map[int][]byte, [][]byte) {
-				ca, _ := NewCA(CertSpec{Rand: detRand(81), Subject: DN("NL", "State", "CSCA"), Key: w.csca.Key, BasicConstraints: &BasicConstraints{Absent: true}})
-				ds, _ := ca.IssueDS(CertSpec{Subject: DN("NL", "State", "DS"), Key: w.ds.Key})
-				return mustSOD(t, NewSODSpec(ds, w.dgs, signingTime)), w.dgs, [][]byte{ca.Cert}
-			},
-			check: func(t *testing.T, f *Facts, a []AnchorFacts) {
-				if a[0].IsCA || a[0].HasBasicConstraints {
-					t.Errorf("anchor facts: %+v", a[0])
-				}
-			}},
-		{name: "ca-unknown-critical-extension",
-			build: func(t *testing.T, w, adv *world) ([]byte, map[int][]byte, [][]byte) {
-				ca, _ := NewCA(CertSpec{Rand: detRand(82), Subject: DN("NL", "State", "CSCA"), Key: w.csca.Key, ExtraExtensions: []Extension{{OID: "1.2.3.4.5", Critical: true, Value: Null()}}})
-				ds, _ := ca.IssueDS(CertSpec{Subject: DN("NL", "State", "DS"), Key: w.ds.Key})
-				return mustSOD(t, NewSODSpec(ds, w.dgs, signingTime)), w.dgs, [][]byte{ca.Cert}
-			},
-			check: func(t *testing.T, f *Facts, a []AnchorFacts) {
-				if !a[0].UnknownCriticalExt {
-					t.Errorf("anchor facts: %+v", a[0])
-				}
-			}},
-		{name: "dg-injected-not-in-sod",
-			build: func(t *testing.T, w, adv *world) ([]byte, map[int][]byte, [][]byte) {
-				dgs := cloneDGs(w.dgs)
-				dgs[14] = []byte{0x6e, 0x02, 0x31, 0x00}
-				return mustSOD(t, NewSODSpec(w.ds, w.dgs, signingTime)), dgs, [][]byte{w.csca.Cert}
-			},
-			check: func(t *testing.T, f *Facts, _ []AnchorFacts) {
-				if f.DGHashOK[14] || !f.DGHashOK[1] {
-					t.Errorf("DGHashOK: %v", f.DGHashOK)
-				}
-			}},
-		{name: "dg1-country-differs-from-certificates",
-			build: func(t *testing.T, w, adv *world) ([]byte, map[int][]byte, [][]byte) {
-				dgs := cloneDGs(w.dgs)
-				dgs[1] = MakeDG1(MakeTD3MRZ("DEU", "L898902C3"))
-				return mustSOD(t, NewSODSpec(w.ds, dgs, signingTime)), dgs, [][]byte{w.csca.Cert}
-			},
-			check: func(t *testing.T, f *Facts, _ []AnchorFacts) {
-				if f.Certs[0].Country != "NL" || !f.DGHashOK[1] {
-					t.Errorf("facts: %v", f.Certs[0].Country)
-				}
-			}},
-		{name: "cert-signature-corrupted",
-			build: func(t *testing.T, w, adv *world) ([]byte, map[int][]byte, [][]byte) {
-				ds, _ := w.csca.IssueDS(CertSpec{Subject: DN("NL", "State", "DS"), Key: w.ds.Key, CorruptSignature: true})
-				return mustSOD(t, NewSODSpec(ds, w.dgs, signingTime)), w.dgs, [][]byte{w.csca.Cert}
-			},
-			check: func(t *testing.T, f *Facts, _ []AnchorFacts) {
-				if len(f.Certs[0].ChainsTo) != 0 || !eqInts(f.Signers[0].SigVerifiesUnder, ints(0)) {
-					t.Errorf("facts: %+v", f.Certs[0])
-				}
-			}},
-		{name: "no-signed-attrs", libraryMayAccept: true,
-			build: func(t *testing.T, w, adv *world) ([]byte, map[int][]byte, [][]byte) {
-				s := NewSODSpec(w.ds, w.dgs, signingTime)
-				s.SD.Signers[0].NoSignedAttrs = true
-				return mustSOD(t, s), w.dgs, [][]byte{w.csca.Cert}
-			},
-			check: func(t *testing.T, f *Facts, _ []AnchorFacts) {
-				if f.SignedAttrsPresent || !eqInts(f.Signers[0].SigVerifiesUnder, ints(0)) {
-					t.Errorf("facts: %+v", f.Signers[0])
-				}
-			}},
-	}
-	for i, ks := range variantSpecs() {
-		w := newWorld(t, int64(600+i), ks)
-		// adversary: own CA and DS with the same names, key identifiers and serial numbers as the genuine ones
-		rnd := detRand(int64(650 + i))
-		advCA, err := NewCA(CertSpec{Rand: rnd, SubjectRaw: w.csca.SubjectDER, KeySpec: ks, KeySlot: 7, SKI: &KeyID{Value: w.csca.SKI}, Serial: w.csca.Serial})
-		if err != nil {
-			t.Fatal(err)
-		}
-		advDS, err := advCA.IssueDS(CertSpec{SubjectRaw: w.ds.SubjectDER, KeySlot: 8, SKI: &KeyID{Value: w.ds.SKI}, Serial: w.ds.Serial})
-		if err != nil {
-			t.Fatal(err)
-		}
-		adv := &world{csca: advCA, ds: advDS, dgs: w.dgs}
-		for _, fg := range forgeries {
-			fg := fg
-			t.Run(ks.String()+"/"+fg.name, func(t *testing.T) {
-				sod, dgs, store := fg.build(t, w, adv)
-				f, anchors := ComputeFacts(sod, dgs, store)
-				if f.InternalPanic != "" || !f.Parseable || len(f.Signers) != 1 {
-					t.Fatalf("facts unusable: %+v", f)
-				}
-				fg.check(t, f, anchors)
-				_, err := runPA(sod, dgs, nil, store)
-				if err == nil {
-					if fg.libraryMayAccept {
-						t.Logf("library accepts %s (permitted)", fg.name)
-					} else {
-						deviation(t, "accept-forgery/"+fg.name+"/"+ks.Kind, "forged object accepted")
-					}
-				} else if strings.Contains(err.Error(), "PANIC") {
-					deviation(t, "panic/"+fg.name+"/"+ks.Kind, "%v", err)
+				if v.SigningTimeAtNotBefore && !f.SigningTime.Equal(ds.NotBefore) || v.SigningTimeAtNotAfter && !f.SigningTime.Equal(ds.NotAfter) {
+					t.Errorf("signing time %v vs %v..%v", f.SigningTime, ds.NotBefore, ds.NotAfter)
 				}
 			})
 		}
@@ -955,8 +869,7 @@ func TestFactsNeverPanic(t *testing.T) {
 					stillValid++
 				}
 				// trust store entries get the same treatment
-				_, a := ComputeFacts(sod, w.dgs, [][]byte{b[:len(b)/2], b})
-				_ = a
+				ComputeFacts(sod, w.dgs, [][]byte{b[:len(b)/2], b})
 			}
 			for k := 0; k < n; k++ {
 				b := append([]byte{}, sod...)
@@ -974,12 +887,10 @@ func TestFactsNeverPanic(t *testing.T) {
 				}
 				try(fmt.Sprintf("mutation %d", k), b)
 			}
-			// certificate mutants in the trust store and as embedded certificate
 			for k := 0; k < n/5; k++ {
 				c := append([]byte{}, w.csca.Cert...)
 				c[rnd.Intn(len(c))] ^= byte(1 << uint(rnd.Intn(8)))
-				f := CertificateFacts(c, [][]byte{c, w.csca.Cert})
-				_ = f
+				CertificateFacts(c, [][]byte{c, w.csca.Cert})
 			}
 			t.Logf("%s indef=%v: %d mutants, %d unparseable, %d with all signature facts intact", ks, indef, n, unparseable, stillValid)
 		}
